@@ -48,6 +48,12 @@ var c05Values = []string{"a", "b", "zz", "7", "items", "X", "c", "hello-1"}
 func genC05(rt *rapid.T) c05Case {
 	var c c05Case
 	nd := 1 + lang.Spread(rt, "nd", 8)
+	// some tables are large and mostly under one method: nothing in the router limits a table's
+	// size, and ordering among many candidates is where a selection rule can go wrong
+	big := lang.Spread(rt, "big", 100) < 15
+	if big {
+		nd = 9 + lang.Spread(rt, "ndbig", 32)
+	}
 	for i := 0; i < nd; i++ {
 		var d c05Decl
 		// engineered overlap: often derive from an earlier declaration
@@ -77,6 +83,9 @@ func genC05(rt *rapid.T) c05Case {
 			}
 		} else {
 			d.Method = c05Methods[lang.Spread(rt, "m", len(c05Methods))]
+			if big && lang.Spread(rt, "bigm", 100) < 80 {
+				d.Method = "GET"
+			}
 			n := lang.Spread(rt, "nseg", 4)
 			for j := 0; j < n; j++ {
 				if lang.Spread(rt, "isparam", 100) < 40 {
@@ -89,6 +98,9 @@ func genC05(rt *rapid.T) c05Case {
 		c.Decls = append(c.Decls, d)
 	}
 	nr := 1 + lang.Spread(rt, "nr", 6)
+	if big {
+		nr = 4 + lang.Spread(rt, "nrbig", 12)
+	}
 	for i := 0; i < nr; i++ {
 		var r c05Req
 		r.Method = c05Methods[lang.Spread(rt, "rm", len(c05Methods))]
@@ -235,6 +247,9 @@ func structuralMatches(decls []c05Decl, method string, segs []string) (sameMetho
 
 func runC05(c c05Case) evid.Outcome {
 	labels := map[string]bool{}
+	if len(c.Decls) > 12 {
+		labels["table-larger-than-12"] = true
+	}
 	nontrivial := false
 
 	// level 1: the library router on its own
